@@ -183,6 +183,11 @@ structure St where
   runningIdle : Option Nat := none
   aborted : Bool := false
   log : List Obs := []
+  lifeFlags : List (Nat × Bool) := []      -- `NEEDS_EXTRA_LIFECYCLE_EVENTS` of each source type: fixed at creation
+  -- ghosts (never read by the model's behaviour)
+  aliased : Bool := false                  -- a slot handed out a token equal to one issued before (generation wrap, F12)
+  dupInsert : Bool := false                -- a source object was inserted while it already sat in a slot (ruled out by
+                                           -- Rust's move semantics; in the model by the `owned` flag)
   deriving Repr
 
 abbrev M := EStateM Exc St
@@ -376,10 +381,11 @@ def srcUnregister (k : Nat) : M Unit := do
 
 /-! ### dispatcher-level registration (`EventDispatcher for RefCell<DispatcherInner>`) -/
 
-def isLife (k : Nat) : M Bool := do
-  match ← getSrc? k with
-  | some s => return s.life
-  | none => return false
+/-- the lifecycle flag (`NEEDS_EXTRA_LIFECYCLE_EVENTS`) as the type-level constant it is: recorded once, when the
+    source object is created, and never changed -/
+def lifeFlag (s : St) (k : Nat) : Bool := (alookup s.lifeFlags k).getD false
+
+def isLife (k : Nat) : M Bool := do return lifeFlag (← get) k
 
 /-- `AdditionalLifecycleEventsSet::register` (idempotent) / `unregister` -/
 def lifeRegister (l : List Tok) (t : Tok) : List Tok := if l.contains t then l else l ++ [t]
@@ -450,7 +456,8 @@ def doInsert (k : Nat) (keep : Bool) : M Unit := do
     modSrc k fun s => { s with owned := false, kept := keep && s.kind != .chan && s.kind != .custom }
     let (slots', i) := vacantEntry bV (← get).slots
     let tok := match slots'[i]? with | some sl => sl.tok | none => default
-    modify fun s => { s with slots := setOcc slots' i (some k) }
+    modify fun s => { s with slots := setOcc slots' i (some k), aliased := s.aliased || s.tokens.any (·.2 == tok),
+                             dupInsert := s.dupInsert || inSlot s k }
     let r ← catchErr (dRegister k tok)
     match r with
     | .ok _ =>
@@ -522,7 +529,8 @@ def execC' (o : COp) : M Unit := do
       setSrc k { kind := .gen, gens := [{ fd := fd, r := r, w := w, mode := m }] }
     else emit (.opRes o .nofd)
   | .newCustom k nsub life =>
-    modify fun s => { s with k := (List.range nsub).foldl (fun kk j => setCounter kk (1000 * k + j) 0) s.k }
+    modify fun s => { s with k := (List.range nsub).foldl (fun kk j => setCounter kk (1000 * k + j) 0) s.k,
+                             lifeFlags := if (alookup s.lifeFlags k).isSome then s.lifeFlags else s.lifeFlags ++ [(k, life)] }
     setSrc k { kind := .custom, life := life,
                gens := (List.range nsub).map fun j => { fd := 1000 * k + j, r := true, w := false, mode := .level } }
   | .fd f =>
@@ -547,7 +555,7 @@ def execC' (o : COp) : M Unit := do
     match ← getSrc? k with
     | some s =>
       if s.handles > 0 then
-        setSrc k { s with handles := s.handles - 1 }
+        modSrc k fun s => { s with handles := s.handles - 1 }
         if s.handles == 1 then kWrite (100000 + k) Verif.Generated.Consts.INCREMENT_CLOSE
     | none => pure ()
   | .send k v =>
@@ -556,7 +564,7 @@ def execC' (o : COp) : M Unit := do
       if s.kind != .chan || s.senders == 0 then emit (.opRes o .nohandle)
       else if s.dropped then emit (.opRes o .fail)
       else if !s.sync || s.queue.length < s.cap then
-        setSrc k { s with queue := s.queue ++ [v] }
+        modSrc k fun s => { s with queue := s.queue ++ [v] }
         kWrite (← chanFd k) Verif.Generated.Consts.INCREMENT_PING
         emit (.opRes o .ok)
       else
@@ -569,7 +577,7 @@ def execC' (o : COp) : M Unit := do
     match ← getSrc? k with
     | some s =>
       if s.kind == .chan && s.senders > 0 then
-        setSrc k { s with senders := s.senders - 1 }
+        modSrc k fun s => { s with senders := s.senders - 1 }
         -- `Sender`: every handle pings when dropped; `SyncSender`: the shared ping-on-drop goes last
         if !s.sync || s.senders == 1 then kWrite (← chanFd k) Verif.Generated.Consts.INCREMENT_PING
     | none => pure ()
@@ -581,7 +589,7 @@ def execC' (o : COp) : M Unit := do
     | some s =>
       if s.kind == .timer && s.kept then
         if (← get).running == some k then emit (.opRes o .borrowed)
-        else setSrc k { s with deadline := some d }
+        else modSrc k fun s => { s with deadline := some d }
       else emit (.opRes o .nodisp)
     | none => emit (.opRes o .nodisp)
   | .setInterest k r w m =>
@@ -680,7 +688,7 @@ def chanDrain (k : Nat) : Nat → M (Bool × Bool)
     | some s =>
       match s.queue with
       | v :: rest =>
-        setSrc k { s with queue := rest }
+        modSrc k fun s => { s with queue := s.queue.tail }
         let _ ← runCb k (.msg v)
         chanDrain k budget
       | [] =>
